@@ -561,3 +561,130 @@ def _name_derives_dtype(f: FuncInfo, e: ast.AST, selfn: str) -> bool:
             if f"{selfn}.dtype" in t or "result_type" in t:
                 return True
     return False
+
+
+# ------------------------------------------------------------------------------------- design vector by signal index
+@rule("R-VEC-INDEX", floor=2)
+def r_vec_index(ctx: RuleCtx, col: Collector):
+    """The concatenated design vector is addressed through the cumulative-length array: inside a loop enumerating the
+    variable signals, subscripting the vector by the bare signal index (x[i] instead of x[c[i]]) picks an entry of
+    another signal whenever an array-valued variable precedes it."""
+    m = ctx.model
+    cum = _cum_exprs(ctx)
+    helper_name = "_concatenate_to_array"
+    for f in _functions(m):
+        if f.qual not in cum or f.name == "_split_from_array":
+            continue
+        # names of concatenated vectors: first result of the helper and names assigned from those
+        vecs: Set[str] = set()
+        for n in ast.walk(f.node):
+            if isinstance(n, ast.Assign) and isinstance(n.targets[0], ast.Tuple) and isinstance(n.value, ast.Call) and \
+                    norm(n.value.func).endswith(helper_name):
+                t0 = n.targets[0].elts[0]
+                if isinstance(t0, ast.Name):
+                    vecs.add(t0.id)
+        changed = True
+        while changed:
+            changed = False
+            for n in ast.walk(f.node):
+                if isinstance(n, ast.Assign) and isinstance(n.value, ast.Name) and n.value.id in vecs:
+                    for t in n.targets:
+                        if isinstance(t, ast.Name) and t.id not in vecs:
+                            vecs.add(t.id)
+                            changed = True
+                if isinstance(n, ast.Assign) and isinstance(n.targets[0], ast.Tuple) and isinstance(n.value, ast.Call) and \
+                        any(isinstance(a, ast.Call) and isinstance(a.func, ast.Attribute) and a.func.attr == "copy"
+                            and isinstance(a.func.value, ast.Name) and a.func.value.id in vecs for a in n.value.args):
+                    t0 = n.targets[0].elts[0]
+                    if isinstance(t0, ast.Name) and t0.id not in vecs:
+                        vecs.add(t0.id)
+                        changed = True
+        if not vecs:
+            continue
+        for loop in [n for n in ast.walk(f.node) if isinstance(n, ast.For)]:
+            it = loop.iter
+            if not (isinstance(it, ast.Call) and isinstance(it.func, ast.Name) and it.func.id == "enumerate"
+                    and isinstance(loop.target, ast.Tuple) and isinstance(loop.target.elts[0], ast.Name)):
+                continue
+            if "variables" not in norm(it.args[0]):
+                continue
+            idx = loop.target.elts[0].id
+            n_ok = 0
+            for x in ast.walk(loop):
+                if isinstance(x, ast.Subscript) and isinstance(x.value, ast.Name) and x.value.id in vecs:
+                    if isinstance(x.slice, ast.Name) and x.slice.id == idx:
+                        col.bad(where_of(f), f.rel, line_of(x), stmt_key(x),
+                                f"the concatenated design vector '{x.value.id}' is subscripted with the signal index '{idx}' "
+                                f"instead of an offset from the cumulative-length array: with an array-valued variable in front, "
+                                f"this is an entry of another signal")
+                    else:
+                        n_ok += 1
+            col.ok(where_of(f), f.rel, line_of(loop), f"loop over variables at {stmt_key(loop.iter)} in {f.short}",
+                   f"{n_ok} accesses of {sorted(vecs)} all through the cumulative-length array")
+    dedupe(col)
+
+
+# ----------------------------------------------------------------------------------------------- count rounding
+@rule("R-COUNT-FLOOR", floor=2)
+def r_count_floor(ctx: RuleCtx, col: Collector):
+    """AggActiveSet removes the requested *fractions rounded down to whole entries*: every entry count is int(<size *
+    fraction>) with no rounding function inside (int(round(.)) or ceil would remove an entry for fractions that round
+    down to zero)."""
+    m = ctx.model
+    c = m.public_class("AggActiveSet")
+    f = c.method("__call__")
+    counts = []
+    for n in ast.walk(f.node):
+        if isinstance(n, ast.Assign) and isinstance(n.targets[0], ast.Name) and any(
+                isinstance(x, ast.Attribute) and x.attr == "size" for x in ast.walk(n.value)) and \
+                any(isinstance(x, ast.Attribute) and x.attr.endswith("_amt") for x in ast.walk(n.value)):
+            counts.append(n)
+    if len(counts) < 2:
+        raise AnalysisError("AggActiveSet.__call__: entry counts not found")
+    for n in counts:
+        v = n.value
+        inner_round = [x for x in ast.walk(v) if isinstance(x, ast.Call) and norm(x.func).split(".")[-1] in
+                       ("round", "ceil", "rint", "around")]
+        is_int = isinstance(v, ast.Call) and isinstance(v.func, ast.Name) and v.func.id == "int" or \
+            (isinstance(v, ast.Call) and norm(v.func).endswith("floor")) or \
+            (isinstance(v, ast.BinOp) and isinstance(v.op, ast.FloorDiv))
+        if is_int and not inner_round:
+            col.ok(where_of(f), f.rel, line_of(n), stmt_key(n), "truncation towards zero (rounds down for non-negative counts)")
+        else:
+            col.bad(where_of(f), f.rel, line_of(n), stmt_key(n),
+                    f"the entry count is not the fraction rounded *down* ({'uses ' + norm(inner_round[0].func) if inner_round else 'no int()/floor'}): "
+                    f"a fraction that should round to zero entries removes one")
+
+
+# ------------------------------------------------------------------------------------------------ None vs falsy
+@rule("R-NONE-TRUTHY", floor=20)
+def r_none_truthy(ctx: RuleCtx, col: Collector):
+    """Package-wide: a parameter whose default is None ('not given') must be tested with `is None`, not by truthiness
+    (`p or default`, `default if not p else p`): an explicitly chosen 0 / 0.0 / empty value would silently be replaced
+    by the default."""
+    m = ctx.model
+    for f in _functions(m):
+        opt = {p for p, d in f.defaults().items() if isinstance(d, ast.Constant) and d.value is None}
+        if not opt:
+            continue
+        bad = False
+        for n in ast.walk(f.node):
+            hit = None
+            if isinstance(n, ast.BoolOp) and isinstance(n.op, ast.Or) and isinstance(n.values[0], ast.Name) and \
+                    n.values[0].id in opt and len(n.values) >= 2 and not isinstance(getattr(n, "_parent", None), (ast.If, ast.While)):
+                hit = (n, n.values[0].id)
+            if isinstance(n, ast.IfExp):
+                t = n.test
+                if isinstance(t, ast.Name) and t.id in opt and norm(n.body) == t.id:
+                    hit = (n, t.id)
+                if isinstance(t, ast.UnaryOp) and isinstance(t.op, ast.Not) and isinstance(t.operand, ast.Name) and \
+                        t.operand.id in opt and norm(n.orelse) == t.operand.id:
+                    hit = (n, t.operand.id)
+            if hit:
+                bad = True
+                col.bad(where_of(f), f.rel, line_of(hit[0]), stmt_key(hit[0]),
+                        f"parameter '{hit[1]}' (default None) is tested by truthiness in '{U(hit[0])}': an explicitly given "
+                        f"0 / 0.0 is treated as 'not given' and replaced by the default")
+        if not bad:
+            col.ok(where_of(f), f.rel, line_of(f.node), f"{f.short}: optional parameters {sorted(opt)}", "no truthiness default")
+    dedupe(col)
